@@ -711,3 +711,738 @@ def part_objects(ck: Check, n: int):
         value_case(ck, 'StateSystem', f'StateSystem{rad}x{k}', ss, wl,
                    has_eq=False, has_hash=False,
                    unitary=lambda o: np.array(o.target))
+
+
+# ===================================================================== part D
+NQ = 3      # every PassData of the token protocol lives on 3 qudits
+
+
+class Pools:
+    """Token <-> real value tables for the record-model correspondence."""
+
+    def __init__(self, rng):
+        from itertools import permutations
+        from bqskit.compiler.machine import MachineModel
+        from bqskit.ir.circuit import Circuit
+        from bqskit.ir.gates import CNOTGate, CZGate, RZGate, U3Gate, HGate
+        from bqskit.qis.graph import CouplingGraph
+        from bqskit.qis.state.state import StateVector
+        from harness import c16_gates
+        self.target = [c16_gates.rand_unitary((2, 2, 2), rng)
+                       for _ in range(4)]
+        self.target.append(StateVector(np.array(self.target[0])[:, 0],
+                                       (2, 2, 2)))
+        self.error = [i / 16.0 for i in range(8)]
+        self.model = [
+            MachineModel(NQ),
+            MachineModel(NQ, [(0, 1), (1, 2)]),
+            MachineModel(NQ, [(0, 1), (1, 2)], [CZGate(), RZGate(), HGate()]),
+            MachineModel(NQ, CouplingGraph([(0, 2)], NQ, [(0, 2)]),
+                         [CNOTGate(), U3Gate()]),
+        ]
+        self.perm = [list(p) for p in permutations(range(NQ))]
+        self.seed = [None, 1, 2, 12345]
+        sub = c16_gates.small_circuit(rng, (2, 2), 3, nested=True)
+        self.data = [
+            0, 'text', 2.5, [1, 2, [3, 4]], {'a': [1], 'b': {'c': 2}},
+            np.arange(6.0).reshape(2, 3), sub, (1, 'x', None), {1, 2, 3},
+            [sub.copy(), {'k': np.eye(2)}], CNOTGate(),
+            CouplingGraph([(0, 1)], 2), [[0, 1], [1, 2]],
+        ]
+        self.names = ['target', 'error', 'model', 'placement',
+                      'initial_mapping', 'final_mapping', 'seed']
+
+    def pool(self, name):
+        if name in ('placement', 'initial_mapping', 'final_mapping'):
+            return self.perm
+        return getattr(self, name)
+
+    def token_of(self, name, value) -> int:
+        from bqskit.ir.gate import Gate
+        for j, v in enumerate(self.pool(name)):
+            if deep_eq(v, value, eq_types=(Gate,)) is None:
+                return j
+        return 999
+
+    def build(self, toks):
+        """toks = (t, e, m, p, i, f, s, [(key, tok)...]) -> PassData"""
+        from bqskit.compiler.passdata import PassData
+        from bqskit.ir.circuit import Circuit
+        pd = PassData(Circuit(NQ))
+        for name, t in zip(self.names, toks[:7]):
+            pd[name] = copy.deepcopy(self.pool(name)[t])
+        for k, t in toks[7]:
+            pd[k] = copy.deepcopy(self.data[t])
+        return pd
+
+    def read(self, pd) -> str:
+        vals = [self.token_of('target', pd._target),
+                self.token_of('error', pd._error),
+                self.token_of('model', pd._model),
+                self.token_of('placement', pd._placement),
+                self.token_of('initial_mapping', pd._initial_mapping),
+                self.token_of('final_mapping', pd._final_mapping),
+                self.token_of('seed', pd._seed)]
+        d = ','.join(f'{k}={self.token_of("data", v)}'
+                     for k, v in pd._data.items()) or '-'
+        return ' '.join(map(str, vals)) + ' ' + d
+
+    def rand_toks(self, rng):
+        keys = rng.sample(['k1', 'k2', 'log', 'blocks', 'x', 'ForEach_data',
+                           'num', 'utry'], rng.randint(0, 5))
+        return (rng.randrange(len(self.target)), rng.randrange(8),
+                rng.randrange(len(self.model)), rng.randrange(6),
+                rng.randrange(6), rng.randrange(6), rng.randrange(4),
+                [(k, rng.randrange(len(self.data))) for k in keys])
+
+    @staticmethod
+    def text(toks) -> str:
+        d = ','.join(f'{k}={t}' for k, t in toks[7]) or '-'
+        return ' '.join(map(str, toks[:7])) + ' ' + d
+
+
+def passdata_direct(ck: Check, tag: str, src, img, wl, independent: bool,
+                    replay):
+    """oracles: every key and every field of `img` equals `src`'s."""
+    from bqskit.ir.gate import Gate
+    bad = []
+    try:
+        ks, ki = list(src), list(img)
+        if ks != ki or len(src) != len(img):
+            bad.append('keys')
+        for k in ks:
+            if k not in img:
+                bad.append(f'missing {k}')
+                continue
+            d = deep_eq(src[k], img[k], eq_types=(Gate,))
+            if d:
+                bad.append(f'key {k}: {d}')
+    except Exception as e:
+        bad.append('raises ' + repr(e)[:100])
+    d = deep_eq(src.__dict__, img.__dict__, eq_types=(Gate,))
+    if d:
+        bad.append('field ' + d)
+    if independent:
+        sh = shared_mutables(src, img, wl)
+        if sh:
+            bad.append('shares ' + '; '.join(sh[:3]))
+    if bad:
+        field = ''
+        for b in bad:
+            if b.startswith('field') and "['_" in b:
+                field = ':' + b.split("['")[1].split("']")[0]
+                break
+        ck.violation(f'passdata-{tag}{field}:' + bad[0].split()[0],
+                     f'PassData.{tag}: ' + ', '.join(bad)[:500], replay)
+
+
+def passdata_mutations(pd, rng):
+    """Edits of every mutable component through the public API."""
+    from bqskit.compiler.gateset import GateSet
+    from bqskit.ir.gates import HGate
+    pd.placement[0] = 7
+    pd.placement = [2, 1, 0]
+    pd.initial_mapping.append(9)
+    pd.final_mapping.reverse()
+    pd.error = 0.875
+    pd.update_error_mul(0.5)
+    pd.seed = 99
+    pd.gate_set = GateSet([HGate()])
+    pd.model.coupling_graph._edges.add((0, 2)) if hasattr(
+        pd.model.coupling_graph, '_edges') else None
+    for k in list(pd._data):
+        v = pd[k]
+        if isinstance(v, list):
+            v.append('edited')
+            if v and isinstance(v[0], list):
+                v[0].append('deep')
+        elif isinstance(v, dict):
+            v['edited'] = 1
+            for vv in v.values():
+                if isinstance(vv, (list,)):
+                    vv.append('deep')
+                if isinstance(vv, dict):
+                    vv['deep'] = 1
+        elif isinstance(v, np.ndarray):
+            v[...] = -1
+        elif isinstance(v, set):
+            v.add('edited')
+        elif hasattr(v, 'append_gate'):
+            v.append_gate(HGate(), 0)
+            if v.num_params:
+                v.set_param(0, 3.5)
+    pd['fresh'] = [1]
+    if 'k1' in pd:
+        del pd['k1']
+
+
+def part_passdata(ck: Check, n: int):
+    from bqskit.compiler.passdata import PassData
+    from bqskit.ir.circuit import Circuit
+    from bqskit.ir.gate import Gate
+    rng = ck.rng
+    wl = whitelist()
+    pools = Pools(rng)
+    lines, impl, meta = [], [], []
+    for i in range(n):
+        ta, tb = pools.rand_toks(rng), pools.rand_toks(rng)
+        if i == 0:   # every user key at once
+            tb = tb[:7] + ([(f'u{j}', j) for j in range(len(pools.data))],)
+        replay = {'a': Pools.text(ta), 'b': Pools.text(tb)}
+        ck.count(('passdata', Pools.text(ta), Pools.text(tb)))
+        ck.bump('passdata_cases')
+        for deep in (True, False):
+            a, b = pools.build(ta), pools.build(tb)
+            snap = pickle.loads(pickle.dumps(b))
+            a.become(b, deep)
+            passdata_direct(ck, 'become' + ('-deep' if deep else '-shallow'),
+                            b, a, wl, deep, replay)
+            lines.append(f'pd become {Pools.text(ta)} | {Pools.text(tb)}')
+            impl.append(pools.read(a))
+            meta.append(('become', replay))
+            if deep:
+                passdata_mutations(a, rng)
+                d = deep_eq(b.__dict__, snap.__dict__, eq_types=(Gate,))
+                if d:
+                    ck.violation('passdata-become-deep-alias',
+                                 'editing the receiver of become(deepcopy='
+                                 'True) changed the source at ' + d, replay)
+        b = pools.build(tb)
+        snap = pickle.loads(pickle.dumps(b))
+        passdata_direct(ck, 'pickle', b, snap, wl, True, replay)
+        c = b.copy()
+        passdata_direct(ck, 'copy', b, c, wl, True, replay)
+        lines.append(f'pd copy | {Pools.text(tb)}')
+        impl.append(pools.read(c))
+        meta.append(('copy', replay))
+        passdata_mutations(c, rng)
+        d = deep_eq(b.__dict__, snap.__dict__, eq_types=(Gate,))
+        if d:
+            ck.violation('passdata-copy-alias', 'editing the copy changed '
+                         'the original at ' + d, replay)
+        c2 = b.copy()
+        snap2 = pickle.loads(pickle.dumps(c2))
+        passdata_mutations(b, rng)
+        d = deep_eq(c2.__dict__, snap2.__dict__, eq_types=(Gate,))
+        if d:
+            ck.violation('passdata-copy-alias', 'editing the original '
+                         'changed the copy at ' + d, replay)
+        # update
+        a, b = pools.build(ta), pools.build(tb)
+        a.update(b)
+        lines.append(f'pd update {Pools.text(ta)} | {Pools.text(tb)}')
+        impl.append(pools.read(a))
+        meta.append(('update', replay))
+        for k in b:
+            d = deep_eq(a[k], b[k], eq_types=(Gate,))
+            if d:
+                ck.violation(f'passdata-update:{k}', f'after a.update(b) key '
+                             f'{k} differs: {d}', replay)
+        for k, t in ta[7]:
+            if k not in b and deep_eq(a[k], pools.data[t],
+                                      eq_types=(Gate,)):
+                ck.violation('passdata-update:lost-key', f'key {k} of the '
+                             'receiver changed', replay)
+        # set / get through the mapping interface
+        b = pools.build(tb)
+        key = rng.choice(['target', 'model', 'machine_model', 'placement',
+                          'error', 'seed', 'initial_mapping',
+                          'final_mapping', 'k1', 'zz'])
+        pname = {'machine_model': 'model', 'k1': 'data', 'zz': 'data'}.get(
+            key, key)
+        t = rng.randrange(len(pools.pool(pname)))
+        b[key] = copy.deepcopy(pools.pool(pname)[t])
+        lines.append(f'pd set {key} {t} | {Pools.text(tb)}')
+        impl.append(pools.read(b))
+        meta.append(('set', {**replay, 'key': key, 'tok': t}))
+        try:
+            got = str(pools.token_of(pname, b[key]))
+        except KeyError:
+            got = 'err key'
+        lines.append(f'pd get {key} | {pools.read(b)}')
+        impl.append(got)
+        meta.append(('get', {**replay, 'key': key}))
+    outs = ck.driver('pickle', lines)
+    for line, im, mo, (kind, replay) in zip(lines, impl, outs, meta):
+        ck.bump('traces_validated_against_impl')
+        if mo == 'bad-op':
+            raise RuntimeError('driver rejected ' + line)
+        if im != mo:
+            ck.violation(f'passdata-{kind}-correspondence',
+                         f'PassData.{kind}: implementation {im} vs record '
+                         f'model {mo}', {**replay, 'line': line, 'impl': im,
+                                         'model': mo, 'broken':
+                                         'correspondence pickle pd'},
+                         found_input=False)
+    # lazily evaluated target (more than 8 qudits): the circuit is the field
+    big = Circuit(9)
+    from bqskit.ir.gates import HGate
+    big.append_gate(HGate(), 4)
+    pd = PassData(big)
+    pd['k'] = [1]
+    for how, f in (('pickle', lambda o: pickle.loads(pickle.dumps(o))),
+                   ('copy', lambda o: o.copy())):
+        img = f(pd)
+        d = deep_eq(pd.__dict__, img.__dict__, eq_types=(Gate,))
+        if d or shared_mutables(pd, img, wl):
+            ck.violation(f'passdata-{how}-lazy-target', str(d), {})
+    r = PassData(Circuit(1))
+    r.become(pd, True)
+    d = deep_eq(pd.__dict__, r.__dict__, eq_types=(Gate,))
+    if d:
+        ck.violation('passdata-become-lazy-target', d, {})
+    ck.count(('passdata', 'lazy-target'))
+    # update_error_mul against exact rationals
+    elines, evals = [], []
+    for _ in range(max(10, n)):
+        xs = [Fraction(rng.randrange(0, 65), 64)
+              for _ in range(rng.randint(2, 6))]
+        pd = PassData(Circuit(1))
+        pd.error = float(xs[0])
+        prev = pd.error
+        ok = True
+        for x in xs[1:]:
+            pd.update_error_mul(float(x))
+            if not (0.0 <= pd.error <= 1.0) or pd.error < prev - 1e-15:
+                ok = False
+            prev = pd.error
+        if not ok:
+            ck.violation('update-error-mul:range', f'{xs}: error left [0,1] '
+                         'or decreased', {'errors': list(map(str, xs))})
+        elines.append('errmul ' + ' '.join(f'{x.numerator}/{x.denominator}'
+                                           for x in xs))
+        evals.append((xs, pd.error))
+        ck.count(('errmul', tuple(xs)))
+    for line, (xs, got), mo in zip(elines, evals, ck.driver('pickle', elines)):
+        ck.bump('traces_validated_against_impl')
+        p, q = mo.split('/')
+        want = Fraction(int(p), int(q))
+        ref = Fraction(1)
+        for x in xs:
+            ref *= (1 - x)
+        if want != 1 - ref:
+            ck.violation('update-error-mul:model', f'{line}: model {mo} is '
+                         f'not 1-prod(1-x) = {1 - ref}', {'line': line},
+                         found_input=False)
+        if abs(got - float(want)) > 1e-12:
+            ck.violation('update-error-mul:value', f'{line}: implementation '
+                         f'{got} vs exact {want}', {'line': line})
+
+
+# ===================================================================== part E
+def build_workflows(rng):
+    """Workflows nesting every control pass with module-level callables."""
+    from bqskit.compiler.workflow import Workflow
+    from bqskit.ir.gates import CNOTGate, HGate, RZGate, U3Gate
+    from bqskit.passes.control import (DoThenDecide, DoWhileLoopPass,
+                                       ForEachBlockPass, IfThenElsePass,
+                                       ParallelDo, WhileLoopPass)
+    from bqskit.passes.control.predicates import (ChangePredicate,
+                                                  GateCountPredicate,
+                                                  NotPredicate,
+                                                  WidthPredicate)
+    from harness import c16_defs as D
+    L = D.LogPass
+    runnable = []     # no runtime needed
+    structural = []   # ForEachBlockPass / ParallelDo need a runtime to run
+    w1 = Workflow([L('a', HGate(), 0), L('b', RZGate(), 1, [0.5])], 'plain')
+    w2 = Workflow([
+        L('start', CNOTGate(), (0, 1)),
+        IfThenElsePass(D.CountBelow(3), [L('t', U3Gate(), 0, [1, 2, 3])],
+                       [L('f')]),
+        WhileLoopPass(D.CountBelow(6), [L('w', HGate(), 1)]),
+        DoWhileLoopPass(D.ScriptPredicate('script'), [L('d', HGate(), 0)]),
+        DoThenDecide(D.fewer_ops, [D.PopPass('pop')]),
+        DoThenDecide(D.never, [L('rejected', HGate(), 0)]),
+    ], 'control')
+    w3 = Workflow([
+        IfThenElsePass(NotPredicate(WidthPredicate(5)),
+                       [WhileLoopPass(D.CountBelow(2), [
+                           IfThenElsePass(D.ScriptPredicate('script', True),
+                                          [L('x', HGate(), 0)],
+                                          [L('y', HGate(), 1)])])]),
+        DoWhileLoopPass(ChangePredicate(), [D.PopPass('p')]),
+        IfThenElsePass(GateCountPredicate(HGate()), [L('again', HGate(), 0)]),
+        Workflow([w1, L('tail')], 'inner'),
+    ], 'nested')
+    runnable += [w1, w2, w3, Workflow(w3, 'copyctor')]
+    structural += [
+        Workflow([ForEachBlockPass([w1], True, D.only_blocks,
+                                   D.always_replace, 2)], 'foreach'),
+        Workflow([ForEachBlockPass(
+            [IfThenElsePass(D.CountBelow(2), [L('i')]),
+             ForEachBlockPass([L('inner')], replace_filter='less-than')],
+            collection_filter=None, replace_filter='always')], 'foreach2'),
+        Workflow([ParallelDo([[L('p1', HGate(), 0)], w1,
+                              [WhileLoopPass(D.CountBelow(2),
+                                             [L('p3', HGate(), 1)])]],
+                             D.fewer_ops, True),
+                  ParallelDo([[L('q')]], D.make_closure(2))], 'parallel'),
+        Workflow([DoThenDecide(lambda a, b: b.depth <= a.depth, [L('lam')])],
+                 'lambda'),
+    ]
+    return runnable, structural
+
+
+def run_workflow(wf, script):
+    import asyncio
+    from bqskit.compiler.passdata import PassData
+    from bqskit.ir.circuit import Circuit
+    c = Circuit(2)
+    data = PassData(c)
+    data['script'] = list(script)
+    asyncio.run(wf.run(c, data))
+    return c, data
+
+
+def part_workflows(ck: Check):
+    import dill
+    from bqskit.ir.gate import Gate
+    from bqskit.runtime.address import RuntimeAddress
+    from bqskit.runtime.task import RuntimeTask
+    from harness import c16_defs as D
+    alpha = circ_sim.Alphabet()
+    sim = circ_sim.Sim(alpha, ck.rng)
+    runnable, structural = build_workflows(ck.rng)
+    for wf in runnable + structural:
+        ck.count(('workflow', wf.name))
+        ck.bump('workflows')
+        for how, f in (('pickle', lambda o: pickle.loads(pickle.dumps(o))),
+                       ('dill', lambda o: dill.loads(dill.dumps(o))),
+                       ('deepcopy', copy.deepcopy)):
+            try:
+                img = f(wf)
+            except Exception as e:
+                ck.violation(f'workflow-{how}-raises', f'{wf.name}: {e!r}',
+                             {'workflow': wf.name})
+                continue
+            d = deep_eq(wf, img, eq_types=(Gate,))
+            if d:
+                ck.violation(f'workflow-{how}:structure', f'{wf.name}: '
+                             f'differs at {d}', {'workflow': wf.name})
+            if img.name != wf.name or len(img) != len(wf) or \
+                    [type(p) for p in img] != [type(p) for p in wf] or \
+                    str(img) != str(wf):
+                ck.violation(f'workflow-{how}:public', wf.name,
+                             {'workflow': wf.name})
+            if wf in runnable:
+                for script in ([], [1, 1, 0], [0, 1]):
+                    c1, d1 = run_workflow(wf, script)
+                    c2, d2 = run_workflow(img, script)
+                    if sim.circ_text(c1) != sim.circ_text(c2) or \
+                            list(c1.params) != list(c2.params) or \
+                            d1.get('log') != d2.get('log') or \
+                            d1.get('pred') != d2.get('pred'):
+                        ck.violation(
+                            f'workflow-{how}:behaviour', f'{wf.name}: the '
+                            'image runs differently: ' + str(d1.get('log'))
+                            + ' vs ' + str(d2.get('log')),
+                            {'workflow': wf.name, 'script': script})
+                    ck.bump('workflow_runs')
+    # RuntimeTask.serialized_fnargs
+    big = c16_gates_circuit(ck.rng)
+    fnargs_list = [
+        (D.task_fn, (1,), {'b': [1, 2], 'scale': 2.5}),
+        (D.task_fn, (big,), {'b': {'k': np.arange(3)}}),
+        (D.task_coro, (big,), {}),
+        (lambda x, y=2: x + y, (3,), {'y': 4}),
+        (D.make_closure(3), (big, big), {}),
+        (runnable[1].run, (big, None), {}),
+    ]
+    for i, fa in enumerate(fnargs_list):
+        ck.count(('task', i))
+        ck.bump('runtime_tasks')
+        addr = RuntimeAddress(1, 2, 3)
+        t = RuntimeTask(fa, addr, 7, (RuntimeAddress(0, 0, 0), addr), 10, 2,
+                        log_context={'k': 'v'})
+        try:
+            t2 = pickle.loads(pickle.dumps(t))
+        except Exception as e:
+            ck.violation('task-pickle-raises', f'fnargs #{i}: {e!r}',
+                         {'fnargs': i})
+            continue
+        d = deep_eq(t.__dict__, t2.__dict__, eq_types=(Gate,))
+        if d:
+            ck.violation('task-pickle:field', f'fnargs #{i}: {d}',
+                         {'fnargs': i})
+        f1, f2 = t.fnargs, t2.fnargs
+        d = deep_eq((fa[1], fa[2]), (f2[1], f2[2]), eq_types=(Gate,)) or \
+            deep_eq(f1[0], f2[0], eq_types=(Gate,)) if not hasattr(
+                fa[0], '__self__') else deep_eq(fa[0].__self__,
+                                               f2[0].__self__,
+                                               eq_types=(Gate,))
+        if d:
+            ck.violation('task-fnargs', f'fnargs #{i} arrive different: {d}',
+                         {'fnargs': i})
+        if i in (0, 3):
+            r1 = fa[0](*fa[1], **fa[2])
+            r2 = f2[0](*f2[1], **f2[2])
+            if deep_eq(r1, r2):
+                ck.violation('task-fnargs:result', f'fnargs #{i}', {})
+        if t2.return_address != t.return_address or \
+                t2.breadcrumbs != t.breadcrumbs or \
+                hash(t2.return_address) != hash(t.return_address):
+            ck.violation('task-pickle:address', f'fnargs #{i}', {})
+
+
+def c16_gates_circuit(rng):
+    from harness import c16_gates
+    return c16_gates.small_circuit(rng, (2, 3, 2), 4, nested=True)
+
+
+# ===================================================================== part F
+ERRMAP = {KeyError: 'err runtime', TypeError: 'err type',
+          ValueError: 'err value', IndexError: 'err index'}
+
+
+def part_malformed(ck: Check, n: int):
+    """Arbitrary payloads through the real rebuild_circuit and the model."""
+    from bqskit.ir.circuit import rebuild_circuit
+    rng = ck.rng
+    alpha = circ_sim.Alphabet()
+    sim = circ_sim.Sim(alpha, rng)
+    gates = [(g, gate) for g, gate in alpha.gates if g not in (13, 14)]
+    lines, impl, kinds = [], [], []
+    for _ in range(n):
+        nq = rng.randint(1, 5)
+        radixes = [rng.choice([2, 2, 3]) for _ in range(nq)]
+        tbl = rng.sample(gates, rng.randint(1, 5))
+        cycles = []
+        for _c in range(rng.randint(0, 4)):
+            free = list(range(nq))
+            rng.shuffle(free)
+            grp = []
+            for _o in range(rng.randint(1, 3)):
+                gi = rng.randrange(len(tbl))
+                gate = tbl[gi][1]
+                if gate.num_qudits > len(free):
+                    continue
+                loc = [free.pop() for _ in range(gate.num_qudits)]
+                par = [rng.randrange(-2048, 2048)
+                       for _ in range(gate.num_params)]
+                grp.append([gi, loc, par])
+            if grp:
+                cycles.append(grp)
+        kind = rng.choice(['valid', 'valid', 'gate-index', 'dup-loc',
+                           'big-qudit', 'param-count', 'no-params',
+                           'loc-size', 'zero-qudits', 'radix-1',
+                           'radix-len', 'empty-group', 'no-radixes',
+                           'radix-mismatch'])
+        n_field, rad_field = nq, list(radixes)
+        items = [it for g in cycles for it in g]
+        if kind in ('gate-index', 'dup-loc', 'big-qudit', 'param-count',
+                    'no-params', 'loc-size') and not items:
+            kind = 'valid'
+        if kind == 'gate-index':
+            rng.choice(items)[0] = len(tbl) + rng.randint(0, 2)
+        elif kind == 'dup-loc':
+            it = rng.choice(items)
+            it[1] = it[1] + [it[1][0]]
+        elif kind == 'big-qudit':
+            it = rng.choice(items)
+            it[1] = [nq + rng.randint(0, 1)] + it[1][1:]
+        elif kind == 'param-count':
+            rng.choice(items)[2].append(5)
+        elif kind == 'no-params':
+            rng.choice(items)[2] = []
+        elif kind == 'loc-size':
+            it = rng.choice(items)
+            extra = [q for q in range(nq) if q not in it[1]]
+            if extra and rng.random() < 0.5:
+                it[1] = it[1] + [extra[0]]
+            elif len(it[1]) > 1:
+                it[1] = it[1][:-1]
+            else:
+                kind = 'valid'
+        elif kind == 'zero-qudits':
+            n_field = 0
+        elif kind == 'radix-1':
+            rad_field[rng.randrange(nq)] = 1
+        elif kind == 'radix-len':
+            rad_field = rad_field + [2]
+        elif kind == 'empty-group':
+            if len(cycles) >= 1:
+                cycles.insert(rng.randrange(len(cycles) + 1), [])
+            else:
+                kind = 'valid'
+        elif kind == 'no-radixes':
+            rad_field = []
+        # overlapping writes are outside the model: make locations of one
+        # group disjoint again (they are, except after loc-size growth)
+        gt = '&'.join(f'{g};' + ','.join(map(str, gate.radixes))
+                      + f';{gate.num_params}' for g, gate in tbl)
+        ct = '/'.join('+'.join(f'{gi};' + ','.join(map(str, loc)) + ';'
+                               + ','.join(map(str, par))
+                               for gi, loc, par in grp) for grp in cycles)
+        if any(len({q for it in grp for q in it[1]})
+               != sum(len(it[1]) for it in grp) for grp in cycles) and \
+                kind != 'dup-loc':
+            continue
+        line = (f'rebuild {n_field} '
+                + (','.join(map(str, rad_field)) or '-') + f' {gt} '
+                + (ct if cycles else '-'))
+        if cycles and ct.replace('/', '') == '':
+            continue
+        try:
+            c = rebuild_circuit(
+                n_field, tuple(rad_field),
+                [(False, pickle.dumps(gate)) for _, gate in tbl],
+                pickle.dumps([[(gi, tuple(loc), [p / circ_sim.SCALE
+                                                 for p in par])
+                               for gi, loc, par in grp] for grp in cycles]))
+            res = sim.circ_text(c)
+        except tuple(ERRMAP) as e:
+            res = ERRMAP[type(e)]
+        lines.append(line)
+        impl.append(res)
+        kinds.append(kind)
+    outs = ck.driver('pickle', lines)
+    for line, im, mo, kind in zip(lines, impl, outs, kinds):
+        ck.count(('rebuild', line))
+        ck.bump('traces_validated_against_impl')
+        ck.bump('malformed_payload_kinds', kind)
+        if im.startswith('err'):
+            ck.bump('error_kinds', im)
+        if mo == 'bad-op':
+            raise RuntimeError('driver rejected ' + line)
+        if im != mo:
+            ck.violation(f'rebuild-payload-correspondence:{kind}',
+                         f'rebuild_circuit on a {kind} payload: '
+                         f'implementation {im} vs model {mo}',
+                         {'line': line, 'impl': im, 'model': mo,
+                          'broken': 'correspondence pickle rebuild'},
+                         found_input=False)
+
+
+def part_witnesses(ck: Check):
+    """Replays of the Lean witnesses and of the minimal reproducers of the
+    known findings on the real code."""
+    from bqskit.compiler.machine import MachineModel
+    from bqskit.ir.circuit import Circuit
+    from bqskit.ir.gates import CircuitGate, CNOTGate, HGate, XGate
+    from bqskit.ir.operation import Operation
+    from bqskit.qis.graph import CouplingGraph
+    # --- C16_idle_cycle_witness (private API only: why Inv is needed)
+    c = Circuit(2)
+    for i in range(3):
+        c._append_cycle()
+    c._append(Operation(XGate(), [0]), 0)
+    c._append(Operation(XGate(), [1]), 2)
+    y = pickle.loads(pickle.dumps(c))
+    out = ck.driver('pickle', ['reduce 2,2:1;;0;2//1;;1;2'])[0]
+    ck.bump('traces_validated_against_impl')
+    ck.count(('witness', 'idle-cycle'))
+    model_says = 'ncycles=3:2' in out
+    if not (c.num_cycles == 3 and y.num_cycles == 2 and model_says):
+        ck.violation('witness-idle-cycle-not-reproduced',
+                     'C16_idle_cycle_witness no longer replays: real '
+                     f'{c.num_cycles}->{y.num_cycles}, model {out}',
+                     {'broken': 'C16_idle_cycle_witness'}, found_input=False)
+    # --- known findings: minimal reproducers
+    g = CouplingGraph([(0, 3), (1, 2), (2, 4)], 5)
+    p = pickle.loads(pickle.dumps(g))
+    g2 = CouplingGraph([(2, 3), (0, 1)], 4)
+    g3 = CouplingGraph([(0, 1), (2, 3)], 4)
+    if (p == g and hash(p) != hash(g)) or (g2 == g3 and hash(g2) != hash(g3)):
+        ck.violation('eq-hash:CouplingGraph:set-order',
+                     WHAT['eq-hash:CouplingGraph:set-order'],
+                     {'reproducer': 'g = CouplingGraph([(0,3),(1,2),(2,4)], 5'
+                      '); p = pickle.loads(pickle.dumps(g)); p == g and '
+                      'hash(p) != hash(g)  |  CouplingGraph([(2,3),(0,1)],4) '
+                      'vs CouplingGraph([(0,1),(2,3)],4)'})
+    s1 = Circuit(1)
+    s1.append_gate(HGate(), 0)
+    s2 = Circuit(1)
+    s2.append_gate(HGate(), 0)
+    s2.append_gate(XGate(), 0)
+    a, b = CircuitGate(s1), CircuitGate(s2)
+    if a == b and (hash(a) != hash(b) or not np.allclose(
+            a.get_unitary(), b.get_unitary())):
+        ck.violation('eq-hash:CircuitGate:prefix',
+                     WHAT['eq-hash:CircuitGate:prefix'],
+                     {'reproducer': 'CircuitGate(H) == CircuitGate(H;X) is '
+                      'True, hashes and unitaries differ'})
+    x = Circuit(1)
+    x.append_gate(HGate(), 0)
+    y2 = Circuit(2)
+    y2.append_gate(HGate(), 0)
+    if x == y2:
+        ck.violation('eq-unsound:Circuit:num_qudits',
+                     WHAT['eq-unsound:Circuit:num_qudits'],
+                     {'reproducer': 'Circuit(1)+H@0 == Circuit(2)+H@0'})
+    ck.count(('witness', 'known-findings'))
+    # --- observations (documented-shallow APIs; not claims of the property)
+    bsrc = Circuit(2)
+    bsrc.append_gate(HGate(), 0)
+    bsrc.append_gate(CNOTGate(), (0, 1))
+    rcv = Circuit(2)
+    rcv.become(bsrc, False)
+    rcv.append_gate(XGate(), 1)
+    try:
+        list(bsrc.operations_with_cycles())
+        broken = False
+    except KeyError:
+        broken = True
+    ck.coverage['observations'] = {
+        'become(deepcopy=False) then editing the receiver breaks iteration '
+        'of the source (shared cycle lists and DAG dictionaries)': broken,
+    }
+
+
+# ======================================================================== run
+def run(ck: Check):
+    from translate import fields
+    fields.main()
+    proved = ck.lean_obligations()
+    thorough = ck.tier == 'thorough'
+    part_witnesses(ck)
+    part_gates(ck)
+    part_objects(ck, 300 if thorough else 24)
+    part_passdata(ck, 150 if thorough else 10)
+    part_workflows(ck)
+    part_malformed(ck, 4000 if thorough else 300)
+    ncirc = part_circuits(ck, 3000 if thorough else 64, 18)
+    ck.coverage['circuits_from_histories'] = ncirc
+    ck.coverage['rule'] = (
+        'one evaluation = one object (or one payload / one PassData pair / '
+        'one workflow) taken through every trip defined for it: pickle, dill, '
+        'copy(), copy.copy/deepcopy, become(deep and shallow), update; '
+        'circuits are the final states of seeded editing histories of the '
+        'public Circuit API (harness/circ_sim.run_history: 1-7 qudits, '
+        'radixes 2/3, blocks, folds, renumberings), gates are constructor '
+        'sweeps over every class exported by bqskit.ir.gates, PassData pairs '
+        'set every reserved key and 0-13 user keys with nested mutable '
+        'values; compared through the public API (grid text, views, params, '
+        'unitary to 1e-12, ==, hash, dict lookup), field by field, by an '
+        'id() walk for shared mutable objects and by a battery of edits on '
+        'one side; the __reduce__ payload, rebuild_circuit (valid and '
+        'malformed payloads), PassData become/copy/update/setitem/getitem '
+        'and update_error_mul are also replayed through the Lean model; a '
+        'circuit counts as non-trivial with more than 6 operations')
+    if not proved:
+        ck.violation(
+            'proof-obligation', 'Lean obligations of Props/C16 do not check '
+            '(field tables regenerated from the live source, or the model): '
+            + (ck.proof_failure or '')[:600],
+            {'broken': 'BqVerif.Props.C16', 'log': ck.proof_failure},
+            found_input=False)
+    ck.assumptions += [
+        'C16_reduce_rebuild_dag assumes iterOkB c c.iterKahn (the DAG '
+        'iterator yields non-decreasing cycle indices and every operation '
+        'once - C05\'s iter_kahn_eq_rowmajor); the driver evaluates this '
+        'hypothesis on every circuit of the workload',
+        'clause (d) "shares no mutable state" is a heap property: decided by '
+        'the harness (id() walk + edits), not by the record model; the Lean '
+        'tables only check that every copy()/become(deepcopy=True) assignment '
+        'is a deepcopy or of an immutable value',
+        'CachedClass singletons, CircuitLocation and CircuitPoint are '
+        'whitelisted as immutable in the alias walk',
+        'a CircuitGate\'s inner parameters are a cache (the operation\'s '
+        'parameters are used): gates are compared by ==/hash/unitary, not '
+        'by their inner parameter values',
+        'dill internals and the byte format are not modelled; Workflows with '
+        'ForEachBlockPass/ParallelDo are compared structurally only (running '
+        'them needs a runtime)',
+        'gate identity of the model = (gid, radixes, num_params); that real '
+        'gate equality agrees with it is validated on the gate sweep',
+    ]
